@@ -168,6 +168,35 @@ def mec_centre(pts):
     return mec3_centre(*max(itertools.combinations(pts, 3), key=lambda t: mec3_r2(*t)))
 
 
+def mec_tables(xy):
+    """r2[i][e], centre[i][e] of the minimal enclosing circle of xy[i..e] for all i <= e. Row i grows the segment one point at
+    a time: a point inside the current circle changes nothing; a point p outside it lies on the new circle, which is then
+    the largest of the circles of the pairs / triples that contain p (its support set contains p)."""
+    n = len(xy)
+    r2 = [[None] * n for _ in range(n)]
+    cen = [[(Fraction(0), Fraction(0))] * n for _ in range(n)]
+    for i in range(n):
+        cr, cc, seen = Fraction(0), (Fraction(xy[i][0]), Fraction(xy[i][1])), [xy[i]]
+        r2[i][i], cen[i][i] = cr, cc
+        for e in range(i + 1, n):
+            p = xy[e]
+            if (p[0] - cc[0]) ** 2 + (p[1] - cc[1]) ** 2 > cr:
+                others = [q for q in dict.fromkeys(seen) if q != p]
+                best = None
+                for q in others:
+                    v = Fraction(d2(p, q)) / 4
+                    if best is None or v > best[0]:
+                        best = (v, (Fraction(p[0] + q[0]) / 2, Fraction(p[1] + q[1]) / 2))
+                for q, r in itertools.combinations(others, 2):
+                    v = mec3_r2(p, q, r)
+                    if v > best[0]:
+                        best = (v, mec3_centre(p, q, r))
+                cr, cc = best
+            seen.append(p)
+            r2[i][e], cen[i][e] = cr, cc
+    return r2, cen
+
+
 # ------------------------------------------------------------------------------------------------
 # global parameters and cost functions of the front-end stream
 # ------------------------------------------------------------------------------------------------
@@ -241,6 +270,7 @@ class P(Prop):
         ("TracklibVerif.Props.C12", "TV.C12.stops_fit_in_circle", "T3: if minCircle's circle is moreover minimal, the reward of (a,b) is (b-a)^2 exactly when the segment lasts at least duration and its observations fit in SOME disc of diameter <= diameter (no reference to minCircle's answer), 0 otherwise"),
         ("TracklibVerif.Props.C12", "TV.C12.stops_track_optimal", "T3: under stops_criterion's hypotheses the segmentation maximises the summed DOCUMENTED reward over all chains 0..size-2"),
         ("TracklibVerif.Props.C12", "TV.C12.stops_final_filter", "the final filter of findStopsGlobal (None circle, radius > diameter/2, duration() < duration) is the documented test with the same inclusive boundaries"),
+        ("TracklibVerif.Props.C12", "TV.C12.find_stops_array_form", "stop detection with the dynamic programme on arrays (findStopsGlobalPyA, run by the driver) = findStopsGlobalPy: same errors, segmentation = stopsSegmentation, stops = stopsReported, same identifiers"),
         ("TracklibVerif.Props.C12", "TV.C12.enclosedB_sound", "the certificate the driver computes on every stop-detection case (every circle handed to the model encloses the observations of its segment in the plane) is the hypothesis hc of stops_criterion / stops_track_optimal / find_stops_global"),
         ("TracklibVerif.Props.C12", "TV.C12.find_stops_global_checked", "find_stops_global with its hypothesis on the circles replaced by that certificate (checked at run time, reply token <enc>)"),
         ("TracklibVerif.Props.C12", "TV.C12.find_stops_global", "T3: findStopsGlobal(track, diameter, duration, downsampling) returns, as (id_ini, id_end, nb_points) = (a*downsampling, (b-1)*downsampling, b-a), exactly the segments admitted by the documented criterion of a chain that maximises the summed documented reward on the track it works on (the resampled copy when downsampling > 1)"),
@@ -569,6 +599,10 @@ class P(Prop):
                         p[2] += 60
         if form != "pos":
             c["form"] = form
+        if rng.random() < 0.15 and len({(p[0], p[1]) for p in pts}) == n:
+            # the same track object asked twice (state left by the first call); not with coincident fixes, which minCircle
+            # moves by 1e-10 in the caller's track
+            c["twice"] = True
         if FINDING_NANZ not in self.listed and any(v == "nan" for v in c.get("z", [])):
             # until the finding is listed: every stop that can be reported keeps one numeric altitude (a stop lasting > 0 s has
             # two fixes, no two consecutive altitudes are NaN, no interpolation between NaN altitudes)
@@ -654,7 +688,7 @@ class P(Prop):
                              "varies by more than the diameter" if max(zs) - min(zs) > float(case.get("diameter", 3 * case.get("std", 0))) else
                              "varies within the diameter")
             t["downsampling"] = str(case.get("ds", "omitted"))
-            t["form"] = case.get("form", "pos")
+            t["form"] = case.get("form", "pos") + (", second call on the same track" if case.get("twice") else "")
         return t
 
     def nontrivial(self, case):
@@ -975,6 +1009,13 @@ class P(Prop):
         self.S.minCircle = spy_mc
         try:
             form = case.get("form", "pos")
+            if case.get("twice") and not case.get("rtk"):
+                self.S.optimalPartition, self.S.minCircle = real, real_mc
+                try:
+                    self.S.findStopsGlobal(t, case["diameter"], case["duration"], case.get("ds", 1), False)
+                except ZeroDivisionError:
+                    pass
+                self.S.optimalPartition, self.S.minCircle = spy, spy_mc
             if case.get("rtk"):
                 stops = self.S.findStopsGlobalForRTK(t, case["std"], case["duration"], 1, False)
             elif form == "kw":
@@ -1053,10 +1094,7 @@ class P(Prop):
             # findStopsGlobal, documented criterion (the tests of the code since 026cb79): C_ij = 0 if the enclosing circle of
             # p_i..p_{j-1} is > diameter, 0 if the duration is < duration, (j-i)^2 otherwise
             d = Fraction(case["diameter"])
-            r2 = [[None] * n for _ in range(n)]
-            for i in range(n):
-                for e in range(i, n):
-                    r2[i][e] = mec_r2(pts[i:e + 1])
+            r2, centres = mec_tables(pts)
             far = [[int(d2(pts[i], pts[e]) > d * d) for e in range(n)] for i in range(n)]
             short = [[int(dur[i][e] < du) for e in range(n)] for i in range(n)]
             small = [[int(e >= i and 4 * r2[i][e] <= d * d) for e in range(n)] for i in range(n)]
@@ -1068,7 +1106,8 @@ class P(Prop):
                 far = [[1] * n for _ in range(n)]
                 small = [[0] * n for _ in range(n)]
             num = {"diam2": d * d, "duration": du, "dist2": [[Fraction(d2(pts[i], pts[e])) for e in range(n)] for i in range(n)],
-                   "dur": dur, "circ2": [[4 * r2[i][e] if e >= i else Fraction(0) for e in range(n)] for i in range(n)]}
+                   "dur": dur, "circ2": [[4 * r2[i][e] if e >= i else Fraction(0) for e in range(n)] for i in range(n)],
+                   "centres": centres}
             if not own:
                 # interpolated coordinates and times: the doubles of the code (sqrt of a rounded sum, Welzl's circumcentre, a
                 # difference of two absolute times) are not the exact values; a value within 1e-9 of its threshold is undecided
@@ -1174,8 +1213,7 @@ class P(Prop):
             ds = case.get("ds", 1)
             # centres of the circles: the driver checks that every circle handed over encloses its segment (enclosedB), which
             # is the hypothesis of stops_criterion / find_stops_global
-            xy = [(p[0], p[1]) for p in g["eff"]]
-            cen = [[mec_centre(xy[i:e + 1]) if e >= i else (Fraction(0), Fraction(0)) for e in range(n)] for i in range(n)]
+            cen = num["centres"]
             return ["C12.stopsd q %s %s %s %s %s %s %s %s %s" % (
                 ratstr(Fraction(case["diameter"])), ratstr(num["duration"]), ratstr(Fraction(ds)), self.mtok("q", [row(p) for p in own]),
                 self.mtok("q", [row(p) for p in g["eff"]]) if ds > 1 else "_", self.mtok("q", circ), self.mtok("q", after),
@@ -1537,7 +1575,7 @@ class P(Prop):
             for d in range(len(case["pts"])):
                 yield dict(case, pts=case["pts"][:d] + case["pts"][d + 1:])
         if k == "stops":
-            for x in ("form", "ds"):
+            for x in ("form", "ds", "twice"):
                 if x in case:
                     yield {y: case[y] for y in case if y != x}
             if "z" in case:
